@@ -10,7 +10,11 @@ EXPLANATION = (
     "it in finally, and on error releases the queue slot and calls the hook on every continuation (R-FEEDER, R-PAIR); "
     "the executor's hook removes its own entry, fails only that future with PicklingError/RuntimeError + cause, wakes the "
     "manager and has no broken/kill effect (R-FEEDER-HOOK); the remote traceback travels as __cause__ of the task's own "
-    "exception (R-CAUSE); single-owner resolution (R-OWN-RESOLVE, R-DROP-RESOLVES). Not decided: values of sibling outcomes."
+    "exception (R-CAUSE); single-owner resolution (R-OWN-RESOLVE, R-DROP-RESOLVES); the task's exception is sent pickling-safely, the feeder's "
+    "silent IndexError handler covers the pop only, failure vs success is chosen by identity (R-EXC-BREADTH, R-FEEDER, "
+    "R-SCN-RESULT); no repr/str/f-string of a user object is evaluated unguarded on the worker loop, the manager or the "
+    "feeder hook (R-USER-FMT); no live exception of an internal thread is handed to a future (R-LIVE-EXC). "
+    "Not decided: values of sibling outcomes."
 )
 
 
@@ -27,5 +31,6 @@ def run(e, R, tier):
         L.r_callback_lock,
         SC.r_scn_feeder,
         SC.r_scn_result,
+        C.r_live_exc,
     ])
 
